@@ -566,6 +566,27 @@ func (x *Exec) query(o *Obligation, withModel bool) string {
 
 // assemble builds the SMT-LIB text of one obligation over the given context lines.
 func (x *Exec) assemble(lines []string, o *Obligation, withModel bool, inst bool, plainRounds ...int) string {
+	// a goal A => B is split: A joins the hypotheses (conjunct by conjunct), B is the goal
+	if g := parseSexpr(o.Goal); g != nil && g.head() == "=>" && len(g.kids) == 3 {
+		cp := *o
+		lines = append([]string{}, lines...)
+		for g != nil && g.head() == "=>" && len(g.kids) == 3 {
+			var conj func(a *sx_)
+			conj = func(a *sx_) {
+				if a.head() == "and" {
+					for _, k := range a.kids[1:] {
+						conj(k)
+					}
+					return
+				}
+				lines = append(lines, "(assert "+a.String()+")")
+			}
+			conj(g.kids[1])
+			g = g.kids[2]
+		}
+		cp.Goal = g.String()
+		o = &cp
+	}
 	var b strings.Builder
 	if withModel {
 		b.WriteString("(set-option :produce-models true)\n")
